@@ -18,10 +18,8 @@ def _arg_expected(spec, a, python_names):
 
 
 def _depr(x):
-    d = x.get("deprecated")
-    if d is None:
-        return None
-    return DEFAULT_DEPRECATION if d == "" else d
+    from vlib.gen.schema import depr_reason
+    return depr_reason(x.get("deprecated"))
 
 
 def expected(spec, python_names=False, descriptions=True):
